@@ -105,7 +105,7 @@ func c07Run(index int, raw json.RawMessage) lab.WorkerResult {
 						atomic.StoreInt32(&panicReached, 1)
 						c07Panic(s.PanicKind)
 					}
-				case "write-to-gone", "never-reads", "never-reads-then-unbind", "never-reads-then-fin", "never-reads-then-malformed":
+				case "write-to-gone", "never-reads", "never-reads-then-unbind", "never-reads-then-fin", "never-reads-then-malformed", "never-reads-crowd":
 					big := string(make([]byte, 32<<10))
 					for i := 0; i < 200; i++ {
 						e := r.NewSearchResponseEntry("cn=x")
@@ -336,6 +336,26 @@ func c07Run(index int, raw json.RawMessage) lab.WorkerResult {
 				defer cl.Close()
 			}
 		}
+	case "never-reads-crowd":
+		// several clients that together have hundreds of requests outstanding and read nothing: every one of their
+		// handlers ends up parked in Write or queued behind one - whatever the server shares between connections
+		// (worker slots, buffers) must not run out for the others
+		okc := 0
+		for k := 0; k < 3; k++ {
+			cl, err := dial()
+			if err != nil {
+				continue
+			}
+			defer cl.Close()
+			var buf []byte
+			for j := 0; j < 100; j++ {
+				buf = append(buf, simpleReq("search", faultID+int64(k*100+j)).Bytes()...)
+			}
+			go func() { _ = cl.Send(buf) }()
+			okc++
+		}
+		time.Sleep(150 * time.Millisecond)
+		delivered = okc == 3
 	case "emfile", "emfile-ids":
 		// lower the descriptor limit so that accept() fails with EMFILE
 		var lim syscall.Rlimit
@@ -531,7 +551,7 @@ func c07Enumerate() []c07Scenario {
 			out = append(out, c07Scenario{Fault: "handler-panic", Op: op, PanicKind: pk, AfterWrite: k%2 == 1})
 		}
 	}
-	for _, f := range []string{"malformed", "rst-midframe", "truncated-fin", "write-to-gone", "never-reads", "never-reads-then-unbind", "never-reads-then-fin", "never-reads-then-malformed", "emfile"} {
+	for _, f := range []string{"malformed", "rst-midframe", "truncated-fin", "write-to-gone", "never-reads", "never-reads-then-unbind", "never-reads-then-fin", "never-reads-then-malformed", "never-reads-crowd", "emfile"} {
 		out = append(out, c07Scenario{Fault: f})
 	}
 	// descriptor shortages of different lengths and repeated ones
@@ -539,7 +559,7 @@ func c07Enumerate() []c07Scenario {
 		out = append(out, c07Scenario{Fault: "emfile", OutageMs: o[0], Outages: o[1]})
 	}
 	// the same against a server with a TLS configuration, plus clients stalling in the handshake
-	for _, f := range []string{"tls-silent-client", "tls-partial-hello", "malformed", "rst-midframe", "write-to-gone", "never-reads", "never-reads-then-unbind"} {
+	for _, f := range []string{"tls-silent-client", "tls-partial-hello", "malformed", "rst-midframe", "write-to-gone", "never-reads", "never-reads-then-unbind", "never-reads-crowd"} {
 		out = append(out, c07Scenario{Fault: f, TLS: true})
 	}
 	for _, op := range []string{"search", "unbind", "default"} {
@@ -610,7 +630,7 @@ func tailOf(s string, n int) string {
 func TestC07Enum(t *testing.T) {
 	lab.SkipIfReplayOther(t, "enum")
 	st := lab.GetStats("C07", "enum")
-	st.SetRule("complete enumeration: handler panic (string / error / nil dereference / custom value; and values whose own Error or String method panics: typed-nil error, error with a nil field, Stringer writing to a nil map, a go-ldap *Error without cause) before and after writing a response in the handler of every operation (bind, search, modify, add, delete, extended, StartTLS, unbind, default route) plus malformed frame, RST mid-frame, truncated frame + FIN, handler writing to a client that has gone, client that never reads while the handler writes 6 MB (also followed by an Unbind, a half-close or a malformed frame while it keeps its socket open), descriptor exhaustion at accept (RLIMIT_NOFILE lowered in the child; one shortage of 30 / 400 / 1200 ms, 12 of 60 ms, 40 of 10 ms); against a TLS-configured server additionally a client that connects and stays silent or stalls inside its ClientHello; each inside verified request/response traffic of 2 bystander connections, followed by a new connection; executed in worker child processes; oracle = child survives, Run has not returned, every bystander response correct, new connection served; non-trivial = fault actually delivered while >= 1 bystander was exchanging requests; distinct by scenario")
+	st.SetRule("complete enumeration: handler panic (string / error / nil dereference / custom value; and values whose own Error or String method panics: typed-nil error, error with a nil field, Stringer writing to a nil map, a go-ldap *Error without cause) before and after writing a response in the handler of every operation (bind, search, modify, add, delete, extended, StartTLS, unbind, default route) plus malformed frame, RST mid-frame, truncated frame + FIN, handler writing to a client that has gone, client that never reads while the handler writes 6 MB (also followed by an Unbind, a half-close or a malformed frame while it keeps its socket open), three clients that pipeline 100 such requests each and read nothing (300 handlers parked), descriptor exhaustion at accept (RLIMIT_NOFILE lowered in the child; one shortage of 30 / 400 / 1200 ms, 12 of 60 ms, 40 of 10 ms); against a TLS-configured server additionally a client that connects and stays silent or stalls inside its ClientHello; each inside verified request/response traffic of 2 bystander connections, followed by a new connection; executed in worker child processes; oracle = child survives, Run has not returned, every bystander response correct, new connection served; non-trivial = fault actually delivered while >= 1 bystander was exchanging requests; distinct by scenario")
 	defer lab.FlushAll()
 	if lab.ReplayInto(t, st, "enum", c07Exec) {
 		return
